@@ -1,6 +1,8 @@
 (* C02 - End to end: an exact linear source-reference relation is recovered in place. *)
 From Coq Require Import ZArith QArith List Bool.
 From HV Require Import Base.QSum Kernel.Fit Kernel.Laws Kernel.Linear Grid.Window Grid.WindowProofs Grid.Dataset Grid.DatasetProofs.
+From HVgen Require Import Formulas.
+From HV Require Import Tie.FormulaTie.
 Open Scope Q_scope.
 
 (* if ref = a * x + c on the jointly valid pixels of the block (x = the source as seen on the processing grid), then at every
@@ -49,3 +51,8 @@ Example C02_example :
   (match go_m (ksums b 3 3 1 1) with Fin m => Qeq_bool m 3 | NonFin => false end,
    match go_c (ksums b 3 3 1 1) with Fin c => Qeq_bool c 7 | NonFin => false end) = (true, true).
 Proof. vm_compute. reflexivity. Qed.
+
+(* ---- tie to the source: KernelModel.apply in the current kernel_model.py computes gain * source + offset *)
+Theorem C02_source_apply_is_gain_src_plus_offset m c x : gen_apply m c x == m * x + c.
+Proof. exact (tie_apply m c x). Qed.
+Print Assumptions C02_source_apply_is_gain_src_plus_offset.
